@@ -1,4 +1,4 @@
-import Proofs.Chain
+import Proofs.NonInterference
 import Pegnet.Generated.Facts
 /-
   C02 — Per-block atomicity and crash consistency of the balance store.
@@ -115,6 +115,56 @@ theorem all_writes_via_block_tx :
        "node/pegnet/txbatchholding.go:SelectTransactionBatchesInHoldingAtHeight:pool:SELECT:p.DB"] := by
   decide
 
+/-! ### the daemon as a process (Proofs/Process.lean, Proofs/NonInterference.lean)
+
+  A run is any sequence of: a loop iteration that completes (commit or rollback), an iteration cut
+  short before COMMIT by a fault or a kill (nothing committed — the SQLite assumption), a restart.
+  The block attempted is always the chain's block at `Sync.Synced + 1`. -/
+
+/-- **Heights are applied once each, in order, without gaps**, along every run from a fresh
+    database, whatever the blocks contain and wherever the process is killed or restarted: above
+    the activation height the version table lists exactly `pegnet+1, …, Synced`, in this order,
+    each once; no row lies above the sync height; the recorded height is the in-memory one. -/
+theorem heights_once_in_order (P : Params) (ch : Nat → Block) (hch : ∀ h, (ch h).height = h) (es : List Ev) :
+    let n := runEvs P ch (freshNode P) es
+    n.db.synced.getD P.act.pegnet = n.mem ∧
+    heightsAbove P.act.pegnet n.db.syncVersions = List.range' (P.act.pegnet + 1) (n.mem - P.act.pegnet) ∧
+    (n.db.syncVersions.map (·.1)).Nodup ∧ (∀ r ∈ n.db.syncVersions, r.1 ≤ n.mem) := by
+  have h := runEvs_inOrder P ch hch (freshNode P).mem es (freshNode P) (inOrder_fresh P)
+  exact ⟨h.synced, h.rows, h.nodup, h.rows_le⟩
+
+/-- …and the same from any database being resumed whose bookkeeping is consistent -/
+theorem heights_once_in_order_from (P : Params) (ch : Nat → Block) (hch : ∀ h, (ch h).height = h) (n₀ : Node)
+    (hs : n₀.db.synced.getD P.act.pegnet = n₀.mem) (hle : ∀ r ∈ n₀.db.syncVersions, r.1 ≤ n₀.mem)
+    (hn : (n₀.db.syncVersions.map (·.1)).Nodup) (es : List Ev) :
+    InOrder P n₀.mem (runEvs P ch n₀ es) :=
+  runEvs_inOrder P ch hch n₀.mem es n₀ (inOrder_start P n₀ hs hle hn)
+
+/-- **Crash consistency.** Iterations cut short before COMMIT (a kill, a failed statement, a
+    failed upstream request) leave no trace, at any height: the database and the sync height after
+    a run are those of the same run with these iterations erased. (`ValidRun`: an aborted
+    iteration can only have advanced the averaging cache if the complete one would.) -/
+theorem killed_iterations_leave_no_trace (P : Params) (ch : Nat → Block) (n : Node) (es : List Ev)
+    (hv : ValidRun P ch n es) :
+    (runEvs P ch n es).db = (runEvs P ch n (es.filter (fun e => !e.isAborted))).db ∧
+    (runEvs P ch n es).mem = (runEvs P ch n (es.filter (fun e => !e.isAborted))).mem :=
+  aborted_erasable_all P ch es n n ⟨rfl, rfl, Or.inl rfl⟩ hv
+
+/-- **Resume equals uninterrupted run** (below the PIP-10 activation, where the only in-memory
+    consensus input — the averaging cache, see C09 — is not consulted): erase every kill, fault
+    and restart from a run; the ledger (all tables; the version table up to the legacy back-fill
+    rows a restart writes) and the sync height are unchanged, and what remains is the plain replay
+    of consecutive blocks. -/
+theorem resume_equals_uninterrupted_partial (P : Params) (ch : Nat → Block) (hch : ∀ h, (ch h).height = h)
+    (es : List Ev) (hb : BelowPip10 P ch (freshNode P) es) :
+    (runEvs P ch (freshNode P) es).db.ledger = (runEvs P ch (freshNode P) (es.filter Ev.isAttempt)).db.ledger ∧
+    (runEvs P ch (freshNode P) es).mem = (runEvs P ch (freshNode P) (es.filter Ev.isAttempt)).mem :=
+  only_attempts_matter P ch hch (freshNode P).mem es (freshNode P) (freshNode P) [] rfl rfl
+    (inOrder_fresh P) (inOrder_fresh P) hb
+
+/-- non-vacuity: a run with a kill, a restart and two completed iterations -/
+example : [Ev.attempt, .aborted true, .restart, .attempt].filter Ev.isAttempt = [.attempt, .attempt] := rfl
+
 end Pegnet.C02
 
 #print axioms Pegnet.C02.block_all_or_nothing
@@ -122,3 +172,7 @@ end Pegnet.C02
 #print axioms Pegnet.C02.height_applied_once
 #print axioms Pegnet.C02.commit_bumps_height
 #print axioms Pegnet.C02.all_writes_via_block_tx
+#print axioms Pegnet.C02.heights_once_in_order
+#print axioms Pegnet.C02.heights_once_in_order_from
+#print axioms Pegnet.C02.killed_iterations_leave_no_trace
+#print axioms Pegnet.C02.resume_equals_uninterrupted_partial
